@@ -121,6 +121,13 @@ pub fn expand(input: &DeriveInput, trait_name: &'static str) -> Result<TokenStre
         let original_types: Vec<_> = original_types
             .iter()
             .map(|ty| crate::utils::replace_self(ty, &self_ty))
+            .map(|ty| {
+                if ref_type.is_ref() {
+                    crate::utils::behind_reference(&ty)
+                } else {
+                    ty
+                }
+            })
             .collect();
 
         let try_from = quote! {
